@@ -7,7 +7,7 @@ use std::ptr::NonNull;
 
 use bump_scope::alloc::Allocator;
 use bump_scope::settings::BumpSettings;
-use bump_scope::traits::{BumpAllocatorCore, BumpAllocatorScope};
+use bump_scope::traits::{BumpAllocatorCore, BumpAllocatorScope, BumpAllocatorTypedScope};
 use bump_scope::{Bump, WithoutShrink};
 use verif_harness::base::A8;
 
@@ -93,6 +93,34 @@ fn zst_drain_double_drop() -> bool {
     after_drain == 3 && total == 5
 }
 
+/// C15/C07/C01: a MutBumpVec whose growth request FAILS after the slow path walked to a later chunk
+/// is finalised against the wrong chunk: the later chunk's bump position is set to an address
+/// inside the earlier chunk (safe code only)
+fn mut_vec_failed_grow_then_into_slice() -> bool {
+    use bump_scope::MutBumpVec;
+    let mut bump: Bump = Bump::new();
+    // two chunks, then rewind to the first one
+    bump.alloc_slice_fill(2000, 0u8);
+    bump.reset_to_start();
+    assert!(bump.stats().count() >= 2);
+    let first = bump.stats().small_to_big().next().unwrap();
+    let (c0_start, c0_end) = (first.content_start().as_ptr() as usize, first.content_end().as_ptr() as usize);
+    let mut v: MutBumpVec<u64, _> = MutBumpVec::new_in(&mut bump);
+    v.push(1);
+    v.push(2);
+    // a request no allocator can satisfy: the slow path walks to the second chunk, then fails
+    let r = v.try_reserve(1usize << 45);
+    println!("try_reserve(huge) -> {:?}; the vector still holds {:?}", r.is_err(), &*v);
+    let slice = v.into_slice();
+    let slice_addr = slice.as_ptr() as usize;
+    let cur = bump.stats().current_chunk().unwrap();
+    let (cs, ce, pos) = (cur.content_start().as_ptr() as usize, cur.content_end().as_ptr() as usize, cur.bump_position().as_ptr() as usize);
+    println!("slice at {slice_addr:#x} (first chunk is [{c0_start:#x},{c0_end:#x})); current chunk content [{cs:#x},{ce:#x}) position {pos:#x}");
+    let inside = cs <= pos && pos <= ce;
+    println!("bump position inside the current chunk: {inside}");
+    inside
+}
+
 fn main() {
     let which = std::env::args().nth(1).unwrap_or_default();
     let ok = match which.as_str() {
@@ -100,6 +128,7 @@ fn main() {
         "without_shrink_unfit" => without_shrink_unfit(),
         "any_stats_header" => any_stats_header(),
         "zst_drain_double_drop" => zst_drain_double_drop(),
+        "mut_vec_failed_grow_then_into_slice" => mut_vec_failed_grow_then_into_slice(),
         _ => {
             eprintln!("usage: findings reset_to_lower_aligned_checkpoint|without_shrink_unfit|any_stats_header");
             std::process::exit(2);
